@@ -22,6 +22,7 @@ import (
 	"sync"
 	"testing"
 
+	sdkmath "cosmossdk.io/math"
 	storetypes "cosmossdk.io/store/types"
 
 	sdk "github.com/cosmos/cosmos-sdk/types"
@@ -44,7 +45,10 @@ var (
 	exrecBase sdk.Context
 
 	exrecOwners = []string{"A", "B", "C", "Z1"}
-	exrecAssets = []string{"apple", "apples", "applesauce", "app", "pear"}
+	// asset denoms: prefixes of each other, and denoms that differ from another one only in the CASE of
+	// their letters (bank denoms are case sensitive: `[a-zA-Z][a-zA-Z0-9/:._-]{2,127}`, every IBC voucher
+	// is `ibc/<UPPER-CASE HEX>`). No '.', ':', ',' or '=' (field separators of the line protocol).
+	exrecAssets = []string{"apple", "apples", "applesauce", "app", "pear", "Apple", "APPLE", "ibc/7F1A", "ibc/7f1a"}
 	exrecPrices = []string{"usd", "eur"}
 	exrecExts   = []string{"x1", "x2", "x3"}
 	// external ids at the length limits (exchange.MaxExternalIDLength = 100): one char, one
@@ -306,6 +310,24 @@ func (e *exrecEnv) execMut(ws []string) (string, bool) {
 		msg := &exchange.MsgMarketSettleRequest{Admin: e.addrStr(kvArg(ws, "by")), MarketId: uint32(exrecNat(ws, "m")),
 			AskOrderIds: []uint64{exrecNat(ws, "a")}, BidOrderIds: []uint64{exrecNat(ws, "b")}, ExpectPartial: kvArg(ws, "ep") == "1"}
 		return e.run(msg, func(ctx sdk.Context) (string, error) { _, err := e.ms.MarketSettle(ctx, msg); return "", err }), true
+	case "fillbids":
+		// a seller fills bid orders in full (a user settlement); t = the total assets, possibly of several denoms
+		var total sdk.Coins
+		for _, c := range exrecCoinList(kvArg(ws, "t")) {
+			total = total.Add(c)
+		}
+		msg := &exchange.MsgFillBidsRequest{Seller: e.addrStr(kvArg(ws, "by")), MarketId: uint32(exrecNat(ws, "m")),
+			TotalAssets: total, BidOrderIds: exrecIDs(kvArg(ws, "ids"))}
+		return e.run(msg, func(ctx sdk.Context) (string, error) { _, err := e.ms.FillBids(ctx, msg); return "", err }), true
+	case "fillasks":
+		// a buyer fills ask orders in full; t = the total price (ONE coin: the first of the list)
+		total := sdk.Coin{Amount: sdkmath.ZeroInt()}
+		if cs := exrecCoinList(kvArg(ws, "t")); len(cs) > 0 {
+			total = cs[0]
+		}
+		msg := &exchange.MsgFillAsksRequest{Buyer: e.addrStr(kvArg(ws, "by")), MarketId: uint32(exrecNat(ws, "m")),
+			TotalPrice: total, AskOrderIds: exrecIDs(kvArg(ws, "ids"))}
+		return e.run(msg, func(ctx sdk.Context) (string, error) { _, err := e.ms.FillAsks(ctx, msg); return "", err }), true
 	case "commit":
 		msg := &exchange.MsgCommitFundsRequest{Account: e.addrStr(kvArg(ws, "o")), MarketId: uint32(exrecNat(ws, "m")),
 			Amount: exrecUsd(exrecNat(ws, "a"))}
@@ -362,6 +384,35 @@ func (e *exrecEnv) execMut(ws []string) (string, bool) {
 		}), true
 	}
 	return "", false
+}
+
+// exrecCoinList parses `12apple,3ibc/7F1A` (`-` = none) in the order written: the amount is the leading
+// run of digits, the rest is the denom.
+func exrecCoinList(s string) []sdk.Coin {
+	if s == "-" || s == "" {
+		return nil
+	}
+	var rv []sdk.Coin
+	for _, c := range strings.Split(s, ",") {
+		i := 0
+		for i < len(c) && c[i] >= '0' && c[i] <= '9' {
+			i++
+		}
+		if i == 0 || i == len(c) {
+			continue
+		}
+		rv = append(rv, sdk.Coin{Denom: c[i:], Amount: mustInt(c[:i])})
+	}
+	return rv
+}
+
+func exrecIDs(s string) []uint64 {
+	var rv []uint64
+	for _, w := range exrecList(s) {
+		v, _ := strconv.ParseUint(w, 10, 64)
+		rv = append(rv, v)
+	}
+	return rv
 }
 
 func exrecUsd(n uint64) sdk.Coins {
@@ -1014,6 +1065,100 @@ func (g *exrecGen) settle() {
 	}
 }
 
+// fill: a user settlement (MsgFillBids / MsgFillAsks): one account fills 1-4 open orders of one type of one
+// market in full with one message. The orders are picked whatever their asset denoms (a seller may fill
+// bids for several asset denoms with one message: TotalAssets is sdk.Coins; the asks a buyer fills may
+// be for several asset denoms too, only their prices add up to one coin); a minority of the messages
+// is wrong (total off by one, an id that is no such order, an id twice, another market, the owner fills).
+func (g *exrecGen) fill() {
+	os := g.openOrders()
+	wantBid := g.rng.Chance(60)
+	kind := "fillasks"
+	if wantBid {
+		kind = "fillbids"
+	}
+	var cands []*exchange.Order
+	if len(os) > 0 {
+		first := Pick(g.rng, os)
+		for tries := 0; tries < 8 && first.IsBidOrder() != wantBid; tries++ {
+			first = Pick(g.rng, os)
+		}
+		for _, o := range os {
+			if o.GetMarketID() != first.GetMarketID() || o.IsBidOrder() != first.IsBidOrder() {
+				continue
+			}
+			if !first.IsBidOrder() && o.GetPrice().Denom != first.GetPrice().Denom && g.rng.Chance(85) {
+				continue // asks priced in another denom cannot be part of the same total price
+			}
+			cands = append(cands, o)
+		}
+		if first.IsBidOrder() != wantBid {
+			wantBid = first.IsBidOrder()
+			kind = map[bool]string{true: "fillbids", false: "fillasks"}[wantBid]
+		}
+	}
+	if len(cands) == 0 {
+		g.emit(fmt.Sprintf("%s m=%s by=%s ids=%s t=%dapple", kind, g.market(), g.acct(Pick(g.rng, exrecOwners)), g.orderID(), 1+g.rng.Intn(3)))
+		return
+	}
+	// a random subset of 1-4 of them, in random order
+	for i := len(cands) - 1; i > 0; i-- {
+		j := g.rng.Intn(i + 1)
+		cands[i], cands[j] = cands[j], cands[i]
+	}
+	n := 1 + g.rng.Intn(minInt(len(cands), 4))
+	if len(cands) >= 2 && g.rng.Chance(50) {
+		n = minInt(len(cands), 2+g.rng.Intn(3))
+	}
+	picked := cands[:n]
+	// the filler: mostly an account that owns none of the picked orders
+	filler := Pick(g.rng, exrecOwners)
+	for tries := 0; tries < 10; tries++ {
+		own := false
+		for _, o := range picked {
+			if g.e.nameOfBech(o.GetOwner()) == filler {
+				own = true
+			}
+		}
+		if !own || g.rng.Chance(6) {
+			break
+		}
+		filler = Pick(g.rng, exrecOwners)
+	}
+	var total sdk.Coins
+	var ids []string
+	denoms := map[string]bool{}
+	for _, o := range picked {
+		ids = append(ids, strconv.FormatUint(o.OrderId, 10))
+		denoms[o.GetAssets().Denom] = true
+		if wantBid {
+			total = total.Add(o.GetAssets())
+		} else {
+			total = total.Add(o.GetPrice())
+		}
+	}
+	m := strconv.Itoa(int(picked[0].GetMarketID()))
+	switch r := g.rng.Intn(100); {
+	case r < 6:
+		total = total.Add(sdk.NewInt64Coin(total[0].Denom, 1))
+	case r < 10:
+		ids = append(ids, g.orderID()) // an id that may be no order, an order of the other type, of another market, or a repetition
+	case r < 13:
+		m = g.market()
+	}
+	var ts []string
+	for _, c := range total {
+		ts = append(ts, c.Amount.String()+c.Denom)
+	}
+	res := g.emit(fmt.Sprintf("%s m=%s by=%s ids=%s t=%s", kind, m, g.acct(filler), strings.Join(ids, "|"), JoinOr(ts, ",")))
+	if res == "ok" {
+		g.out.Count(fmt.Sprintf("branch:fill_orders=%d", len(ids)))
+		if len(denoms) > 1 {
+			g.out.Count("branch:fill_several_asset_denoms")
+		}
+	}
+}
+
 func (g *exrecGen) paymentOp() {
 	ps := g.payments()
 	pick := func() (string, string, string) { // source, ext, target of an existing payment (or random)
@@ -1261,8 +1406,10 @@ func (g *exrecGen) history(thorough bool) {
 			sx := g.ext()
 			g.out.Count(fmt.Sprintf("extlen:setext:%03d", len(exrecExt(sx))))
 			g.emit(fmt.Sprintf("setext m=%s id=%s x=%s by=%s", m, id, sx, g.admin()))
-		case r < 68:
+		case r < 63:
 			g.settle()
+		case r < 68:
+			g.fill()
 		case r < 86:
 			g.paymentOp()
 		case r < 91:
